@@ -59,6 +59,7 @@ type WriteRec struct {
 
 // Conn is the server side of a connection; Peer methods are the other side.
 type Conn struct {
+	OnWrite func() // harness hook: called after the teamserver wrote to this connection
 	s    *Sim
 	ID   int
 	Name string
@@ -176,6 +177,10 @@ func (c *Conn) Write(p []byte) (int, error) {
 	c.Writes = append(c.Writes, WriteRec{Step: s.Step, N: n, Off: c.out.Len()})
 	c.out.Write(p[:n])
 	s.Version++
+	if c.OnWrite != nil {
+		// a peer that reacts with no latency at all (harness code: parses, pushes an answer)
+		c.OnWrite()
+	}
 	return n, err
 }
 
